@@ -49,6 +49,7 @@ type Task struct {
 	blockedStep  int       // scheduler step at that moment (orders tasks blocked at the same instant)
 	disabled     bool
 	stallUntil   time.Time
+	quiet        bool     // do not trace scheduling of this task (observation probes)
 	acq          []acqRec // recent lock acquisitions (for deadlock diagnosis only)
 	panicVal     any
 	panicStack   string
@@ -608,7 +609,9 @@ func (s *Sim) Run(stop func(v schedView) bool, deadline time.Duration) error {
 			t := s.choose(v.enabled)
 			s.steps++
 			s.fp = (s.fp ^ mix64(uint64(t.site+7), t.Key, uint64(t.kind))) * 1099511628211
-			s.tracef("run %s %s @%s", t.Key, kindNames[t.kind], s.siteStr(t.site))
+			if !t.quiet {
+				s.tracef("run %s %s @%s", shortKey(t.Key), kindNames[t.kind], s.siteStr(t.site))
+			}
 			s.release(t, 0)
 			continue
 		}
